@@ -165,10 +165,14 @@ def history(rng, tier, refs=False, reads=False, flavour="c10"):
                 if dest not in live: live.append(dest)
                 shapes[dest] = None
         elif k == "read":
-            what = rng.pick(["view", "keys", "has", "count", "get", "typed", "childview", "diffself"])
+            what = rng.pick(["view", "keys", "has", "count", "get", "typed", "childview", "diffself", "captured", "captured"])
             o = {"op": "read", "r": r, "what": what, "name": rng.pick(names + ["a", "l.0"]), "idx": rng.pick([-1, -1, 0]), "opts": copts}
             if what == "get": o["type"] = rng.pick(["String", "Int", "Bool"])
             if what == "typed": o["ty"] = rng.pick(["strings", "string", "int", "duration", "ifaces"])
+            if what == "captured":
+                # Unpack (twice or more, into the same target) into a struct capturing the setting as *Config / Config under a policy tag
+                o["ty"] = rng.pick(["", "append", "prepend", "replace", "merge"]) + rng.pick(["", "", "|value"])
+                o["idx"] = 2 + rng.below(2)
             ops.append(o)
         elif k == "diff":
             ops.append({"op": "diff", "r": r, "r2": rng.pick(live), "opts": [opt("PathSep", ".")]})
